@@ -656,6 +656,27 @@ theorem rg_afterConnect (proxy : Bool) (s : Sys) (h0 : readyAt s.trace = none) :
       spec_bind rg_po (rg_of_quiet (quietG_modS ?_)) (fun _ => rg_runLoop)) s2 h2
     intro s; exact ⟨rfl, rfl, rfl, rfl, rfl⟩
 
+theorem rg_runLoopNoSel : Spec RG runLoopNoSel := by
+  unfold runLoopNoSel
+  exact spec_tryC rg_po
+    (spec_bind rg_po (rg_onLoopEnd _) (fun _ => rg_of_quiet quietG_selClose))
+    (fun x => rg_runFinally x)
+
+theorem rg_afterConnectNoSel (proxy : Bool) (s : Sys) (h0 : readyAt s.trace = none) :
+    RG s (afterConnectNoSel proxy s).state := by
+  intro h
+  unfold afterConnectNoSel
+  rw [bind_ok (show modS (fun s => { s with sockOpen := true }) s = .ok () { s with sockOpen := true } from rfl)]
+  rw [bind_ok (show getS { s with sockOpen := true } = .ok _ _ from rfl)]
+  obtain ⟨r, s2, hw, h2⟩ := ginv_write_before_ready s.cfg.request { s with sockOpen := true }
+    ⟨h.now, h.start, h.grid, h.mult⟩ h0
+  rw [bind_ok hw]
+  split
+  · exact rg_closeThenYield _ rfl s2 h2
+  · refine spec_bind rg_po (rg_yieldConnected proxy) (fun _ =>
+      spec_bind rg_po (rg_of_quiet (quietG_modS ?_)) (fun _ => rg_runLoopNoSel)) s2 h2
+    intro s; exact ⟨rfl, rfl, rfl, rfl, rfl⟩
+
 theorem rg_run (s : Sys) (h0 : readyAt s.trace = none) : RG s (run s).state := by
   intro h
   unfold run
@@ -674,6 +695,7 @@ theorem rg_run (s : Sys) (h0 : readyAt s.trace = none) : RG s (run s).state := b
     | socketFail => exact rg_yieldEv _ rfl s1 g
     | otherFail => exact rg_yieldEv _ rfl s1 g
     | ok proxy => exact rg_afterConnect proxy s1 h1 g
+    | selFail proxy => exact rg_afterConnectNoSel proxy s1 h1 g
 
 /-- the grid invariant holds at the end of every connection -/
 theorem ginv_runAll (cfg : Cfg) (react : React) (env : List EnvStep) : GInv (runAll cfg react env) := by
